@@ -21,6 +21,10 @@ REPO = os.environ.get("KVC_REPO", "/repo")
 # of a whole check.  Verdicts do not feed back into symbolic execution, so deferring them changes nothing but wall time.
 PAR = int(os.environ.get("KVC_PAR", "0") or 0)
 SOLVER_SLOTS = None
+TS = float(os.environ.get("KVC_TSCALE", "1") or 1)      # wall-clock limits are multiplied by this (machine slowness, see driver.calibrate)
+RLIMIT_BACKSTOP = 20.0                                   # wall-clock backstop factor of the queries whose deciding limit is z3's rlimit
+RLOG = os.environ.get("KVC_RLOG")
+SECOND_PASS = False                                      # set by the driver: shorter restart portfolio, limits <= 2.5 s tripled, longer ones x1.5
 PKG = "kneeliverse"
 SRC = os.path.join(REPO, "src", PKG)
 
@@ -103,7 +107,7 @@ def enum_const(qual, member):
 
 # =============================================================================== obligations
 class Oblig:
-    __slots__ = ("name", "kind", "hyps", "goal", "lineno", "status", "time", "model", "reason", "func", "text", "tag", "smt2_text", "model_args", "model_error")
+    __slots__ = ("name", "kind", "hyps", "goal", "lineno", "status", "time", "model", "reason", "func", "text", "tag", "smt2_text", "model_args", "model_error", "cpu_ratio")
 
     def __init__(self, name, kind, hyps, goal, lineno, func, text=""):
         self.name = name
@@ -116,7 +120,7 @@ class Oblig:
         self.time = 0.0
         self.model = None
         self.reason = ""
-        self.smt2_text = self.model_args = self.model_error = None
+        self.smt2_text = self.model_args = self.model_error = self.cpu_ratio = None
         self.text = text
 
 
@@ -216,6 +220,7 @@ class Ctx:
         self.dups = []               # (Oblig, index of the identical obligation it copies its verdict from)
         self.model_value = None      # set by the driver: projection of a counter-model onto a parameter value
         self.budget = budget
+        self.only = None             # set of (obligation name, occurrence) to prove; None = all
         self.pruned = []
         self.trusted = set()
         self.inlined = set()
@@ -281,6 +286,10 @@ class Ctx:
         o.tag = self.cur_tag
         o.status, o.time, o.model, o.reason = None, 0.0, None, None
         self.obligs.append(o)
+        if self.only is not None and (name, cnt) not in self.only:
+            # second pass of the driver: only the obligations left undecided by the first pass are proved again
+            o.status, o.reason = "skipped", "not selected in this pass"
+            return True
         if z3.is_true(goal) or z3.is_true(z3.simplify(goal)):
             o.status, o.reason = "discharged", "trivial"
             return True
@@ -322,11 +331,13 @@ class Ctx:
                 if SOLVER_SLOTS is not None:
                     SOLVER_SLOTS.acquire()
                 try:
+                    STARVED[0] = 1.0
                     status, dt, model, reason = prove(st.pc, goal, self.budget)
                 finally:
                     if SOLVER_SLOTS is not None:
                         SOLVER_SLOTS.release()
-                extra = {}
+                # smallest CPU share among this proof's queries that ran into their wall-clock limit: well below 1 = the process was starved, the limit cut short
+                extra = {"cpu_ratio": round(STARVED[0], 3)}
                 if status != "discharged":
                     try:
                         extra["smt2"] = to_smt2(st.pc, goal)
@@ -365,6 +376,7 @@ class Ctx:
         o.smt2_text = extra.get("smt2")
         o.model_args = extra.get("model_args")
         o.model_error = extra.get("model_error")
+        o.cpu_ratio = extra.get("cpu_ratio")
         self.solver_time += dt
         self._trace(o)
 
@@ -377,8 +389,8 @@ class Ctx:
                 continue
             o.status, o.time, o.model, o.reason = src.status, 0.0, src.model, src.reason
             o.hyps = src.hyps
-            for a in ("smt2_text", "model_args", "model_error"):
-                setattr(o, a, getattr(src, a))
+            for a in ("smt2_text", "model_args", "model_error", "cpu_ratio"):
+                setattr(o, a, getattr(src, a, None))
         self.dups = rest
 
     def join(self):
@@ -394,7 +406,7 @@ class Ctx:
         s.add(cond)
         s.add(*relevant_defs(list(st.pc) + [cond]))
         t0 = time.time()
-        r = hard_check(s, 2000)
+        r = hard_check(s, 2000, tag="feasible")
         self.solver_time += time.time() - t0
         return r != z3.unsat
 
@@ -608,7 +620,7 @@ def sum_nonneg(hyps, a, exactly_zero=False):
         s.add(*gi)
         s.add(*defs)
         s.add(z3.Not(goal))
-        if hard_check(s, 700) == z3.unsat:
+        if hard_check(s, 700, tag="nn") == z3.unsat:
             res = (a == zero) if exactly_zero else (a >= zero)
     except z3.Z3Exception:
         res = None
@@ -638,7 +650,10 @@ def sum_extensionality(hyps, a, b):
         s.add(*rng)
         s.add(*gi)
         s.add(z3.Not(goal))
-        r = hard_check(s, 700)
+        _t1 = time.time()
+        r = hard_check(s, 700, tag="ext1")
+        if os.environ.get("KVC_TRACE3"):
+            print("        ext stage1 %s %.2fs" % (r, time.time() - _t1), flush=True)
         if r == z3.unsat:
             res = (a == b)
         else:
@@ -671,7 +686,11 @@ def sum_extensionality(hyps, a, b):
                 s.add(*gi)
                 s.add(*defs)
                 s.add(z3.Not(goal))
-                if hard_check(s, 1500) == z3.unsat:
+                _t1 = time.time()
+                r = hard_check(s, 1500, tag="ext2")
+                if os.environ.get("KVC_TRACE3"):
+                    print("        ext stage2 %s %.2fs" % (r, time.time() - _t1), flush=True)
+                if r == z3.unsat:
                     res = (a == b)
     except z3.Z3Exception:
         res = None
@@ -861,18 +880,50 @@ def relevant_defs(terms):
 import threading
 
 
-def hard_check(solver, ms):
+_rl_last = {}
+STARVED = [1.0]      # smallest CPU share among the queries of this process that hit their wall-clock limit
+
+
+def hard_check(solver, ms, rlimit=0, tag=""):
     """solver.check() with a hard wall-clock limit: z3's own 'timeout' / 'rlimit' parameters are not honoured inside some
-    nonlinear-arithmetic loops, so a timer thread interrupts the context (Z3_interrupt) when the limit expires."""
+    nonlinear-arithmetic loops, so a timer thread interrupts the context (Z3_interrupt) when the limit expires.
+    Every wall-clock limit is multiplied by TS (the machine's measured slowness, set by the driver), so that a verdict does not
+    depend on how fast or how loaded the machine is; with `rlimit` the deciding limit is z3's deterministic resource counter and
+    the wall-clock limit is only a (generous) backstop."""
+    if SECOND_PASS:
+        ms = float(ms) * (3.0 if ms <= 2500 else 1.5)      # the short limits (side proofs, first phases) are the load-sensitive ones
+    ms = float(ms) * TS * (RLIMIT_BACKSTOP if rlimit else 1.0)
+    try:
+        solver.set("timeout", max(100, int(ms)))
+        if rlimit:
+            solver.set("rlimit", int(rlimit))
+    except z3.Z3Exception:
+        pass
     timer = threading.Timer(max(0.2, ms / 1000.0 * 1.25), solver.ctx.interrupt)
     timer.daemon = True
     timer.start()
+    t0 = time.time()
+    c0 = time.process_time()
     try:
         r = solver.check()
     except z3.Z3Exception:
         r = z3.unknown
     finally:
         timer.cancel()
+    wall = time.time() - t0
+    if r == z3.unknown and wall > 0.2:
+        # a query that ran into its wall-clock limit: what share of that time did the process have a CPU?
+        STARVED[0] = min(STARVED[0], (time.process_time() - c0) / wall)
+    if RLOG:
+        try:
+            rc = dict((k, v) for k, v in ((k, solver.statistics().get_key_value(k)) for k in solver.statistics().keys())).get("rlimit count", -1)
+            key = (os.getpid(), id(solver.ctx))
+            d = rc - _rl_last.get(key, 0) if solver.ctx is z3.main_ctx() else rc
+            _rl_last[key] = rc
+            with open(RLOG, "a") as f:
+                f.write("%s\t%d\t%.3f\t%s\t%s\t%s\n" % (tag, ms, time.time() - t0, d, r, rlimit))
+        except Exception:
+            pass
     return r
 
 
@@ -926,10 +977,10 @@ def _check0(hyps, goal, lem, ms, mbqi=True, seed=0, rlimit=0, opaque=False):
         if not mbqi:
             s2.set("smt.mbqi", False)
         s2.from_string(s.to_smt2())
-        r = hard_check(s2, ms)
+        r = hard_check(s2, ms, tag="check-fresh")
         r = z3.unsat if r == z3.unsat else (z3.sat if r == z3.sat else z3.unknown)
         return r, s
-    r = hard_check(s, ms)
+    r = hard_check(s, ms, tag="check")
     return r, s
 
 
@@ -1044,7 +1095,7 @@ def nlsat_refutes(hyps, goal, ms):
         s.set("timeout", int(ms))
         s.add(*ab[:-1])
         s.add(z3.Not(ab[-1]))
-        return hard_check(s, ms) == z3.unsat
+        return hard_check(s, ms, tag="nlsat") == z3.unsat
     except z3.Z3Exception:
         return False
 
@@ -1120,7 +1171,7 @@ def prove1(hyps2, goal2, budget):
       B. all hypotheses, E-matching only (mbqi off), linear lemma instances, K restarts;
       C. all hypotheses with model-based instantiation (the only phase that can return a counter-model)."""
     t0 = time.time()
-    K = max(3, int(budget / 3))
+    K = 2 if SECOND_PASS else max(3, int(budget / 3))
     RL = 3000000 if budget <= 30 else 10000000
     defs = relevant_defs(list(hyps2) + [goal2])
     gi = ground_def_instances(list(hyps2) + [goal2], defs) if defs else []
@@ -1138,7 +1189,7 @@ def prove1(hyps2, goal2, budget):
             s_.add(*qf_)
             s_.add(*l_)
             s_.add(z3.Not(goal2))
-            if hard_check(s_, 1000) == z3.unsat:
+            if hard_check(s_, 1000, tag="phase0") == z3.unsat:
                 return "discharged", time.time() - t0, None, "z3 (quantifier-free hypotheses, definitions opaque)"
     lem = spec_function_lemmas(list(hyps2) + gi, goal2) + gi
     lem0 = spec_function_lemmas(list(hyps2) + gi, goal2, nonlinear=False) + gi
@@ -1169,7 +1220,7 @@ def prove1(hyps2, goal2, budget):
                 s_.set("timeout", 6000)
                 s_.add(*ab[:-1])
                 s_.add(z3.Not(ab[-1]))
-                if hard_check(s_, 6000) == z3.unsat:
+                if hard_check(s_, 6000, tag="umul") == z3.unsat:
                     return "discharged", time.time() - t0, None, "z3 (products abstracted to an uninterpreted function)"
         except z3.Z3Exception:
             pass
@@ -1195,7 +1246,7 @@ def prove1(hyps2, goal2, budget):
             r, s = _check(hyps2, goal2, lem, 20000, mbqi=False, rlimit=RL)
             if r == z3.unsat:
                 return "discharged", time.time() - t0, None, "z3"
-    for seed in (0, 7, 23, 101):
+    for seed in ((0,) if SECOND_PASS else (0, 7, 23, 101)):
         r, s = _check(hyps2, goal2, lem, budget * 250, seed=seed, rlimit=RL * 2)
         if r != z3.unknown:
             break
